@@ -68,7 +68,7 @@ from hypothesis import strategies as st
 from harness.core import Discrepancy, Outcome
 from harness.ref_c18 import (CONFIGURATION, MASTER_ID, UNCONFIGURED, WAITING,
                              RefLssSlave)
-from harness.simbus import Hub
+from harness.simbus import Frame, Hub
 
 PROPERTY = "C18"
 LEVEL = "exploration"
@@ -95,7 +95,7 @@ ASSUMPTIONS = [
     "the property is silent)",
     "return values of send_identify_* are not judged (documented as not implemented); only their frames are",
 ]
-BUDGET = {"quick": 40, "thorough": 360}
+BUDGET = {"quick": 150, "thorough": 360}
 
 ALL1 = 0xFFFFFFFF
 SERVICES = ["inq_vendor", "inq_product", "inq_revision", "inq_serial", "inq_node",
@@ -407,7 +407,85 @@ def _nontrivial_op(s, op):
     return False
 
 
+_virt_serial = [0]
+
+
+def run_virtual(case) -> Outcome:
+    """The same conformant slave behind a real python-can bus (interface 'virtual'); the master's
+    Network is connected, disconnected and connected again - what a bit-rate switch with
+    configure_bit_timing / activate_bit_timing makes an application do - and the inquire services
+    must return the slave's answers in every connected phase."""
+    import os
+    import threading
+
+    import can
+    import canopen
+    L = _prepare()
+    D = []
+    ident = list(case["slave"]["id"])
+    slave = RefLssSlave(ident, UNCONFIGURED, WAITING)
+    _virt_serial[0] += 1
+    channel = f"verif-c18-{os.getpid()}-{_virt_serial[0]}"
+    net = canopen.Network()
+    net.NOTIFIER_CYCLE = 0.01
+    net.lss.RESPONSE_TIMEOUT = 3.0
+    for phase in range(case.get("phases", 2)):
+        net.connect(interface="virtual", channel=channel)
+        peer = can.Bus(interface="virtual", channel=channel)
+
+        class _Out:
+            def route(self, fr, peer=peer):
+                peer.send(can.Message(arbitration_id=fr.can_id, data=fr.data, is_extended_id=False))
+        slave.hub = _Out()
+        stop = threading.Event()
+
+        pump_errors = []
+
+        def pump(peer=peer, stop=stop):
+            try:
+                while not stop.is_set():
+                    m = peer.recv(0.005)
+                    if m is not None:
+                        slave.on_frame(Frame(m.arbitration_id, bytes(m.data)))
+            except BaseException as e:      # a bug of the harness, never a verdict
+                pump_errors.append(e)
+        th = threading.Thread(target=pump, daemon=True)
+        th.start()
+        try:
+            if phase == 0:
+                net.lss.send_switch_state_global(net.lss.CONFIGURATION_STATE)
+            for name in ("inq_vendor", "inq_serial", "inq_node"):
+                try:
+                    if name == "inq_node":
+                        got = net.lss.inquire_node_id()
+                        want = 0xFF
+                    else:
+                        got = net.lss.inquire_lss_address(getattr(L, INQ_NAME[name]))
+                        want = ident[INQ_PART[name]]
+                except Exception as e:
+                    D.append(Discrepancy(f"C18/virtual/{name}/raises",
+                                         f"connected phase {phase + 1}: {type(e).__name__}: {e} although the slave "
+                                         f"answered {[d.hex() for d in slave.delivered[-1:]]}"))
+                    break
+                if got != want:
+                    D.append(Discrepancy(f"C18/virtual/{name}/value",
+                                         f"connected phase {phase + 1}: returned {got!r}, the slave holds {want:#x}"))
+                    break
+        finally:
+            stop.set()
+            th.join()
+            peer.shutdown()
+            net.disconnect()
+        if pump_errors:
+            raise RuntimeError(f"harness: the slave's bus adapter failed: {pump_errors[0]!r}")
+        if D:
+            break
+    return Outcome(True, "virtual-bus/reconnect", D)
+
+
 def run_case(case) -> Outcome:
+    if case.get("fam") == "virtual":
+        return run_virtual(case)
     L = _prepare()
     s = case["slave"]
     ops = case["ops"]
@@ -741,6 +819,9 @@ def search(ctx):
                   + " for scan and selective switch; node-ids 0..255; bit-timing indexes 0..255; error codes "
                     "0..255 x 3 services; wrong cs 0..255 x 8 services; silence/late per service; switch delays "
                   + ("0..65535" if thorough else "(boundary set)"))
+    ctx.enumerate(iter([{"fam": "virtual", "slave": {"id": [0x12345678, 0x9ABCDEF0, 1, 0xFFFFFFFF]}, "phases": 2},
+                        {"fam": "virtual", "slave": {"id": [1, 2, 3, 4]}, "phases": 3}]),
+                  "inquire services over a python-can virtual bus across disconnect / connect")
     ctx.hypothesis(random_scan(), 6000 if thorough else 2000, salt=1)
     ctx.hypothesis(random_selective(), 3000 if thorough else 500, salt=2)
     ctx.hypothesis(history(), 12000 if thorough else 2500, salt=3)
